@@ -77,8 +77,8 @@ CACHE_RULE = ("Scenario: 1..4 targets, one stream task per target playing 4..60 
               "does not store). Non-trivial: >= 3 operations judged.")
 for _p in ("C02", "C03", "C14", "C15"):
     CHECKS[_p] = {
-        "pkgs": ["cacheh", "subscribeh"] if _p == "C14" else (["cacheh", "latencyh"] if _p == "C15" else ["cacheh"]),
-        "quick": {"wall_s": 25, "race_wall_s": 15, "race_max_runs": 800},
+        "pkgs": ["cacheh", "subscribeh"] if _p in ("C14", "C03") else (["cacheh", "latencyh"] if _p == "C15" else ["cacheh"]),
+        "quick": {"wall_s": 40 if _p == "C03" else 25, "race_wall_s": 15, "race_max_runs": 800},
         "thorough": {"wall_s": 360, "race_wall_s": 180, "race_max_runs": 1500},
         "rule": CACHE_RULE,
         "real": ["cache, ctree, metadata, latency, path, value, errlist (instrumented)", "protobuf runtime"],
